@@ -42,10 +42,11 @@ MANIFEST = dict(
     ref='DESIGN.md §3 C09')
 RULE = ('type-directed: a pattern of depth <= 4 (quick) / 5 (thorough) over {literal, type, list, set, frozenset, '
         'tuple, dict with literal / type / Optional(+default) / Required / compound (tuple, And, Regex) keys, Regex, '
-        'callables, And / Or / Not, M comparisons, nested Match(default=)} is generated first; a conforming target '
+        'callables, And / Or / Not, M comparisons, nested Match(default=), occasionally a T access} is generated first; a conforming target '
         'is DERIVED from the pattern (witness per leaf, required keys present, optional keys sometimes), then a '
-        'one-edit mutation stream produces near misses (scalar of another type, dropped / extra dict key, extra / '
-        'missing list item, tuple length, list<->tuple, set<->frozenset at a random position), plus unrelated pool '
+        'one-edit mutation stream produces near misses (scalar of another type or an == value of another type, a '
+        'longer string, dropped / extra / renamed dict key, extra / missing list item, tuple length, list<->tuple, '
+        'set<->frozenset at a random position), plus unrelated pool '
         'targets; Match(default=) on a fraction. non-trivial = the pattern has a container or combinator node; '
         'distinct = distinct (pattern, default, target)')
 TRUSTED = base.TRUSTED + ['set / frozenset iteration order as observed in the same process (shipped to the model)',
@@ -107,9 +108,12 @@ class PGen:
                                     'ret_none', 'raises_value'])}
         if p < 0.8:
             return self.regex()
-        if p < 0.97:
+        if p < 0.95:
             return {'k': 'mexpr', 'l': {'m': True}, 'op': r.choice(list(base.OPS)),
                     'r': {'c': jv(r.choice([0, 1, 5, 'a', 'm', None, 2.5]))}}
+        if p < 0.98:
+            # a T access inside a pattern: a GlomError that is not a MatchError when it fails
+            return {'k': 't', 'e': [r.choice([{'s': 'a'}, {'i': 0}, {'s': 'zz'}])]}
         return {'k': 'M'}
 
     def regex(self):
@@ -260,6 +264,9 @@ class PGen:
             return self.regex_witness(j)
         if k == 'M':
             return r.choice([1, 'x', [0]])
+        if k == 't':
+            key = dec_v(j['e'][0])
+            return {key: 1} if isinstance(key, str) else [5]
         if k == 'mexpr':
             c = dec_v(j['r']['c'])
             op = j['op']
@@ -410,6 +417,9 @@ def edit(rng, tj):
             return set_at(tj, path, {key: items})
         swap = {'l': 't', 't': 'l', 'set': 'fs', 'fs': 'set'}[key]
         return set_at(tj, path, {swap: items})
+    # a string: one more character (a prefix still matches, the whole string does not)
+    if isinstance(node, dict) and 's' in node and rng.random() < 0.4:
+        return set_at(tj, path, {'s': node['s'] + rng.choice(['!', '1', 'a', '@'])})
     # scalar: an equal value of another type, or another scalar (usually of another type)
     e = equiv(node)
     if e is not None and rng.random() < 0.35:
